@@ -305,7 +305,7 @@ func printStruct(sb *stringBuilder, s *parser.StructLike, structType string) {
 func printConstTypedValue(sb *stringBuilder, ctv *parser.ConstTypedValue) {
 	if ctv.Double != nil {
 		s := strconv.FormatFloat(*ctv.Double, 'f', -1, 64)
-		if !strings.Contains(s, ".") && (*ctv.Double >= 1<<63 || *ctv.Double < -(1 << 63)) {
+		if !strings.Contains(s, ".") && (*ctv.Double >= 1<<63 || *ctv.Double <= -(1 << 63)) {
 			// an integer spelling of this magnitude would not fit the parser's int64
 			s = strconv.FormatFloat(*ctv.Double, 'e', -1, 64)
 		}
